@@ -619,6 +619,14 @@ def run(chk):
         chk.ob('C06-D', '%s.to_er7 returns the escaped value' % te7.cls.qualname, ok, '', te7.loc, key='C06-D|%s' % te7.qualname)
     chk.exhaustive = True
 
+    chk.rule('C06-D2', 'decision structure of the functions this property is anchored in: every effect statement (store, call, return, '
+                   'raise) runs under the same combinations of the function\'s elementary tests as in the reviewed tree, and none '
+                   'was deleted (reference/decisions.json; compared by meaning, rewritten functions are not compared)')
+    from . import guardrules as _gr
+    nd2_ = _gr.check_decisions(chk, c, 'C06-D2', lambda fq_: fq_.startswith(('base_datatypes.TextualDataType', 'base_datatypes.WD', 'base_datatypes.ST', 'base_datatypes.FT', 'base_datatypes.ID', 'base_datatypes.IS', 'base_datatypes.TX', 'base_datatypes.GTS', 'base_datatypes.TN', 'v2_')))
+    chk.floor('functions compared with the decision reference (C06-D2)', nd2_, 1)
+
+
 
 def _is_factor(f, w):
     n, k = len(w), len(f)
